@@ -318,6 +318,23 @@ func runC14(c *wk.Ctx) {
 			}
 			env := &gen.Env{}
 			descr := shape.Describe()
+			// every reference of these scopes is linked by construction, whatever field type it sits in, and
+			// ValidateReferences says so
+			if vr, isScope := t.(interface{ ValidateReferences() error }); isScope {
+				allReady := true
+				for _, rf := range refsOf(t) {
+					if !rf.ObjectReady() {
+						allReady = false
+					}
+				}
+				var verr error
+				c.Count("recursive_scopes_reference_checks")
+				if p, site, msg, _ := wk.Guard(func() { verr = vr.ValidateReferences() }); p {
+					c.Violation("C14:panic:ValidateReferences:"+site, msg, map[string]any{"schema": descr})
+				} else if (verr == nil) != allReady {
+					c.Violation(fmt.Sprintf("C14:validate-references-disagrees:ready=%v", allReady), fmt.Sprintf("hand-written recursive scope: ValidateReferences()=%v although all references linked = %v", verr, allReady), map[string]any{"schema": descr})
+				}
+			}
 			var inputs []any
 			switch shape.Root {
 			case "N":
